@@ -1,2 +1,44 @@
-(* C01 — stub *)
-From Zap Require Import Base.Wire C01.Model.
+(* C01 — proofs specific to the property (the shared refinement is in Enc/Refine*.v). *)
+From Coq Require Import List ZArith Bool.
+From Coq.Strings Require Import Byte.
+Import ListNotations.
+From Zap Require Import Base.Wire Enc.Bytes Enc.Fields Enc.JsonEnc Enc.JsonParse Enc.WireEnc Enc.JsonAst Enc.Wf Enc.Refine5 C01.Model.
+
+(* a small concrete configuration and entry used by the witnesses *)
+Definition cfg0 (layout_escaped nil_guard : bool) (ecaller : senc) : cfg :=
+  {| k_message := [x6d]; k_level := []; k_time := [x74]; k_name := []; k_caller := [x63]; k_function := []; k_stack := [];
+     skip_line_ending := false; line_ending := []; e_level := SNil; e_time := SActive; e_duration := SNil;
+     e_caller := ecaller; e_name := SNil; console_sep := [];
+     q_layout_escaped := layout_escaped; q_nil_caller_guard := nil_guard |}.
+(* time rendered by a layout whose output contains a double quote: TimeEncoderOfLayout("\"2006\"") *)
+Definition ent0 (caller : bool) : entry :=
+  {| lvl_text := []; lvl_string := []; time_zero := false;
+     time_val := {| t_nanos := 0; t_rend := RLayout [x22; x31; x39; x37; x30; x22] |}; time_col := [];
+     name := []; caller_defined := caller; caller_text := []; caller_string := [x66; x3a; x31];
+     func := []; message := [x68; x69]; stack := [] |}.
+
+Definition line_of (c : cfg) (ent : entry) : option bytes := encode_entry c false (with_chain c false []) ent [].
+
+(* pre-fix behaviour 1 (repaired by "fix: escape the text produced by a time layout"):
+   AppendTimeLayout wrote the formatted time raw, so a layout producing a quote gave an invalid line *)
+Lemma layout_orig_refuted :
+  exists out, line_of (cfg0 false true SActive) (ent0 false) = Some out /\ line_ok [NL] out = false.
+Proof. eexists. split; [vm_compute; reflexivity|vm_compute; reflexivity]. Qed.
+Lemma layout_fixed_ok :
+  exists out, line_of (cfg0 true true SActive) (ent0 false) = Some out /\ line_ok [NL] out = true.
+Proof. eexists. split; [vm_compute; reflexivity|vm_compute; reflexivity]. Qed.
+
+(* pre-fix behaviour 2 (repaired by "fix: JSON encoder no longer panics when CallerKey is set but
+   EncodeCaller is nil"): the call panics *)
+Lemma nilcaller_orig_refuted : line_of (cfg0 true false SNil) (ent0 true) = None.
+Proof. vm_compute. reflexivity. Qed.
+Lemma nilcaller_fixed_ok :
+  exists out, line_of (cfg0 true true SNil) (ent0 true) = Some out /\ line_ok [NL] out = true.
+Proof. eexists. split; [vm_compute; reflexivity|vm_compute; reflexivity]. Qed.
+
+(* the refinement, instantiated for the JSON encoder (spaced = false) *)
+Theorem json_refines c ctxs ent fs :
+  q_nil_caller_guard c = true -> forallb wf_flds ctxs = true -> wf_flds fs = true -> wf_entry ent = true ->
+  encode_entry c false (with_chain c false ctxs) ent fs =
+    Some (pv false (TObj (entry_members c ctxs ent fs)) ++ resolved_le c).
+Proof. apply entry_bytes. Qed.
